@@ -424,6 +424,30 @@ pub fn run(run: Run) -> ! {
         }
     }
     let pts: u64 = acc.per.iter().map(|p| p.n).sum();
+    // Two DIFFERENT custom easings in one timeline, one directly after the other for the same property (default easing
+    // custom A, first keyframe custom B; and keyframe A followed by keyframe B): each segment uses the custom it names
+    for (ia, ib) in [(1u8, 2u8), (2, 1), (3, 4), (5, 1)] {
+        let (fa, fb) = (PolyEasing(ia), PolyEasing(ib));
+        let tl1 = P::timeline().duration_seconds(1.0).default_easing(Easing::Custom(Box::new(PolyEasing(ia)))).keyframe(P::keyframe(0.0).a(0.0).easing(Easing::Custom(Box::new(PolyEasing(ib))))).keyframe(P::keyframe(1.0).a(1.0)).build();
+        let tl2 = P::timeline().duration_seconds(2.0).keyframe(P::keyframe(0.0).a(0.0).easing(Easing::Custom(Box::new(PolyEasing(ia))))).keyframe(P::keyframe(0.5).a(1.0).easing(Easing::Custom(Box::new(PolyEasing(ib))))).keyframe(P::keyframe(1.0).a(0.0)).build();
+        for j in 1..64 {
+            let x = j as f32 / 64.0;
+            custom_checks += 2;
+            let mut p = P::default();
+            tl1.update(&mut p, x);
+            let w1 = 0.0f32 * (1.0 - fb.calc(x)) + 1.0 * fb.calc(x);
+            let mut q = P::default();
+            tl2.update(&mut q, 1.0 + x);
+            let w2 = 1.0f32 * (1.0 - fb.calc(x)) + 0.0 * fb.calc(x);
+            let mut r = P::default();
+            tl2.update(&mut r, x);
+            let w3 = 0.0f32 * (1.0 - fa.calc(x)) + 1.0 * fa.calc(x);
+            if p.a.to_bits() != w1.to_bits() || q.a.to_bits() != w2.to_bits() || r.a.to_bits() != w3.to_bits() {
+                acc.sink.add("custom-not-used-as-given:second-custom-in-a-timeline", (ia as u64) << 16 | j as u64, || (format!("customs f{ia} then f{ib} in one timeline at fraction {x}: got {} / {} / {}, expected {w1} / {w2} / {w3}", p.a, q.a, r.a), json!({"customs": [ia, ib], "x": fj(x)})));
+                break;
+            }
+        }
+    }
     // Custom easings composed from built-ins (a built-in boxed as a custom easing, and a user function that calls
     // a built-in inside its own calc), directly and as a timeline's default easing: used as given, no panic.
     {
